@@ -61,7 +61,7 @@ package collection
 //@ owns dirtyOld, dirtyNew
 
 //@ func (m *SafeMap) Get
-//@   property C16
+//@   property C16 C12
 //@   flag old_at_lock
 //@   results val, ok
 //@   requires m != nil
@@ -69,7 +69,7 @@ package collection
 //@   modifies nothing
 
 //@ func (m *SafeMap) Set
-//@   property C16
+//@   property C16 C12
 //@   flag old_at_lock
 //@   requires m != nil
 //@   ghost at after Lock#0: smN[m] = smN[m] + ite(smH[m][key], 0, 1)
@@ -80,7 +80,7 @@ package collection
 //@   modifies smH[m], smV[m], smN[m], m.deletionOld, m.deletionNew, mapof(m.dirtyOld), mapof(m.dirtyNew)
 
 //@ func (m *SafeMap) Del
-//@   property C16
+//@   property C16 C12
 //@   flag old_at_lock
 //@   requires m != nil
 //@   ghost at after Lock#0: smN[m] = smN[m] - ite(smH[m][key], 1, 0)
@@ -290,7 +290,7 @@ package collection
 
 // ---- construction ----
 //@ func NewSafeMap
-//@   property C16
+//@   property C16 C12
 //@   ghost at returned#0: smH[ret] = nokeys()
 //@   ghost at returned#0: smN[ret] = 0
 //@   ensures fresh(result) && forall(k.(any), !smH[result][k]) && smN[result] == 0
@@ -298,7 +298,7 @@ package collection
 //@   modifies smH[result], smN[result]
 
 //@ func (m *SafeMap) Range
-//@   property C16
+//@   property C16 C12
 //@   requires m != nil && f != nil
 //@   flag callbacks_noheap
 //@   call f#0: assert smH[m][k] && v == smV[m][k]
@@ -309,7 +309,7 @@ package collection
 //@   loop 1: invariant true
 
 //@ func (m *SafeMap) Size
-//@   property C16
+//@   property C16 C12
 //@   flag old_at_lock
 //@   requires m != nil
 //@   ensures  result == smN[m]
@@ -348,7 +348,7 @@ package collection
 //@      len(rw.win.buckets) == rw.size && forall(i.(int), implies(0 <= i && i < rw.size, rw.win.buckets[i] != nil))
 
 //@ func (rw *RollingWindow) Add
-//@   property C16
+//@   property C16 C01 C02
 //@   flag modifies_typeargs
 //@   requires rwOK(rw)
 //@   ghost at after updateOffset#0: lemma modWrap(rw.offset, rw.size)
@@ -367,11 +367,11 @@ package collection
 // one left out when ignoreCurrent is set and nothing newer exists.
 //@ specfn ringAt(x int, n int) int = x % n
 //@ lemma ringAll(b int, n int)
-//@   property C16
+//@   property C16 C01 C02
 //@   hyp n >= 1 && 0 <= b && b < n
 //@   goal forall(d.(int), implies(0 <= d && d < n, ringAt(b + d, n) == wrap(b + d, n)))
 //@ func (rw *RollingWindow) Reduce
-//@   property C16
+//@   property C16 C01 C02
 //@   requires rwOK(rw) && fn != nil
 //@   flag callbacks_noheap
 //@   iterates fn count rwCount(rw) arg rw.win.buckets[ringAt(rwStart(rw)+idx, rw.size)]
@@ -389,13 +389,13 @@ package collection
 //@ ghost var bkBag map[any]map[float64]int
 
 //@ extern func (b BucketInterface) Add
-//@   property C16
+//@   property C16 C01 C02
 //@   ensures  bkBag[b] == upd(old(bkBag[b]), v, old(bkBag[b][v]) + 1)
 //@   modifies bkBag[b]
 //@   flag modifies_typeargs
 
 //@ extern func (b BucketInterface) Reset
-//@   property C16
+//@   property C16 C01 C02
 //@   ensures  forall(x.(float64), bkBag[b][x] == 0)
 //@   modifies bkBag[b]
 //@   flag modifies_typeargs
@@ -403,21 +403,21 @@ package collection
 //@ spec winOK(w *window) bool = w != nil && w.size >= 1 && len(w.buckets) == w.size && forall(i.(int), implies(0 <= i && i < w.size, w.buckets[i] != nil))
 
 //@ func (w *window) add
-//@   property C16
+//@   property C16 C01 C02
 //@   requires winOK(w) && offset >= 0
 //@   ensures  bkBag[w.buckets[offset%w.size]] == upd(old(bkBag[w.buckets[offset%w.size]]), v, old(bkBag[w.buckets[offset%w.size]][v]) + 1)
 //@   modifies bkBag[w.buckets[offset%w.size]]
 //@   flag modifies_typeargs
 
 //@ func (w *window) resetBucket
-//@   property C16
+//@   property C16 C01 C02
 //@   requires winOK(w) && offset >= 0
 //@   ensures  forall(x.(float64), bkBag[w.buckets[offset%w.size]][x] == 0)
 //@   modifies bkBag[w.buckets[offset%w.size]]
 //@   flag modifies_typeargs
 
 //@ func (w *window) reduce
-//@   property C16
+//@   property C16 C01 C02
 //@   requires winOK(w) && start >= 0 && count >= 0 && fn != nil
 //@   iterates fn count count arg w.buckets[(start+idx)%w.size]
 //@   flag noheap:fn
@@ -442,23 +442,23 @@ package collection
 //@ spec inReset(j int, o int, i int, n int) bool = (j > o && j - o <= i) || (j <= o && j + n - o <= i)
 
 //@ lemma modWrap(x int, n int)
-//@   property C16
+//@   property C16 C01 C02
 //@   hyp n >= 1 && 0 <= x && x < 2*n
 //@   goal x % n == wrap(x, n) && (x % n) % n == wrap(x, n)
 
 //@ lemma remRange(a time.Duration, b time.Duration)
-//@   property C16
+//@   property C16 C01 C02
 //@   hyp a >= 0 && b > 0
 //@   goal 0 <= a % b && a % b < b && a - a % b == b * (a / b) && a / b >= 0
 
 //@ func (rw *RollingWindow) span
-//@   property C16
+//@   property C16 C01 C02
 //@   requires rwOK(rw)
 //@   ensures  result == rwSpan(rw)
 //@   modifies nothing
 
 //@ func (rw *RollingWindow) updateOffset
-//@   property C16
+//@   property C16 C01 C02
 //@   requires rwOK(rw)
 //@   flag modifies_typeargs
 //@   ghost at entry: lemma remRange(now - rw.lastTime, rw.interval)
@@ -478,7 +478,7 @@ package collection
 
 // ---- construction: newBucket is assumed to build a new bucket on every call (its history starts empty) ----
 //@ func newWindow
-//@   property C16
+//@   property C16 C01 C02
 //@   requires size >= 1 && newBucket != nil
 //@   flag freshfn:newBucket
 //@   flag noheap:newBucket
@@ -495,7 +495,7 @@ package collection
 //@   loop 0: invariant forall(a.(int), forall(x.(float64), implies(0 <= a && a < i, bkBag[buckets[a]][x] == 0)))
 
 //@ func NewRollingWindow
-//@   property C16
+//@   property C16 C01 C02
 //@   requires size >= 1 && interval > 0 && newBucket != nil
 //@   call opt#0: modifies w.ignoreCurrent
 //@   ghost at returned#0: rwE[ret] = 0
@@ -507,12 +507,12 @@ package collection
 //@   loop 0: invariant true
 
 //@ func (b *Bucket) Add
-//@   property C16
+//@   property C16 C01 C02
 //@   requires b != nil
 //@   ensures  b.Sum == old(b.Sum) + v && b.Count == old(b.Count) + 1
 //@   modifies b.Sum, b.Count
 //@ func (b *Bucket) Reset
-//@   property C16
+//@   property C16 C01 C02
 //@   requires b != nil
 //@   ensures  b.Sum == 0 && b.Count == 0
 //@   modifies b.Sum, b.Count
